@@ -298,3 +298,76 @@ where
         f(r, ctx, l, &rec)
     });
 }
+
+/// Model self-test + repository test inputs. (1) Every expectation extracted from the
+/// repository's own tests (`crate::selftest`) is compared with the *model*; a disagreement
+/// makes the run inconclusive (exit 2: the oracle cannot be trusted), never a violation.
+/// (2) The same buffers are run through `f` under all 128 configurations, several
+/// capacities and every prefix.
+pub fn selftest_phase<F>(r: &Runner, sub: &'static str, accept: &(dyn Fn(Entry, u8) -> bool + Sync), f: F)
+where
+    F: Fn(&Runner, &mut Ctx, &mut Local, &CaseRec) -> Result<(), Violation> + Sync,
+{
+    let ex = crate::selftest::repo_tests();
+    let mut compared = 0usize;
+    let mut cases = 0usize;
+    let entry_of = |k: Kind| match k {
+        Kind::Request => Entry::ReqCfg,
+        Kind::Response => Entry::RespCfg,
+        Kind::Headers => Entry::Headers,
+        Kind::Chunk => Entry::Chunk,
+    };
+    let mine: Vec<&crate::selftest::TExp> = ex.cases.iter().filter(|c| accept(entry_of(c.kind.unwrap()), 0)).collect();
+    for c in &mine {
+        match crate::selftest::model_agrees(c) {
+            Ok(n) => {
+                compared += n;
+                cases += 1;
+            }
+            Err(e) => r.inconclusive.lock().unwrap().push(format!("model self-test: {}", e)),
+        }
+    }
+    r.note(format!(
+        "model self-test: {} expectations ({} assertions) extracted from the repository's tests agree with the model ({} test functions seen, {} skipped because they compute their input, {} statements not understood; all kinds: {} cases / {} assertions)",
+        cases, compared, ex.tests_seen, ex.tests_skipped_computed_input, ex.statements_skipped, ex.cases.len(), ex.assertions_used
+    ));
+    if mine.is_empty() {
+        return;
+    }
+    // (2) the test inputs as generated-check bases
+    const CAPS: [usize; 5] = [usize::MAX, 0, 1, 2, 64];
+    let mut offs = vec![0u64];
+    for c in &mine {
+        let plen = if c.buf.len() <= 400 { c.buf.len() as u64 + 1 } else { 1 };
+        offs.push(offs.last().unwrap() + 128 * (CAPS.len() as u64 - 1 + plen));
+    }
+    r.par_enum(&format!("inputs of the repository's own tests ({} buffers) × 128 configurations × {{capacity of the test with every prefix, capacities 0/1/2/64 whole}}", mine.len()), *offs.last().unwrap(), |ctx, l, idx| {
+        let bi = offs.partition_point(|&o| o <= idx) - 1;
+        let c = mine[bi];
+        let x = idx - offs[bi];
+        let cfg = (x % 128) as u8;
+        let y = x / 128;
+        let kind = c.kind.unwrap();
+        let (cap, buf) = if (y as usize) < CAPS.len() - 1 {
+            (CAPS[y as usize + 1], c.buf.clone())
+        } else {
+            let k = (y as usize) - (CAPS.len() - 1);
+            (c.cap, c.buf[..c.buf.len() - k.min(c.buf.len())].to_vec())
+        };
+        let entry = match kind {
+            Kind::Request => if cfg == 0 && idx % 2 == 0 { Entry::ReqParse } else { Entry::ReqCfg },
+            Kind::Response => if cfg == 0 && idx % 2 == 0 { Entry::RespParse } else { Entry::RespCfg },
+            k => {
+                if cfg != 0 {
+                    return Ok(());
+                }
+                entry_of(k)
+            }
+        };
+        if !accept(entry, cfg) {
+            return Ok(());
+        }
+        let rec = CaseRec::new(sub, entry, cfg, cap, buf);
+        f(r, ctx, l, &rec)
+    });
+}
